@@ -27,11 +27,18 @@ Individual elements of the vec don't have to be deallocated as they are u8.
 
 static DECOMPRESSION_POOL: OnceLock<rayon::ThreadPool> = OnceLock::new();
 
+/// How much has been decoded so far, and whether the decoder stopped on an error.
+#[derive(Default)]
+struct Progress {
+    decoded: usize,
+    failed: bool,
+}
+
 struct SyncVecWr {
     _arc: Arc<Vec<u8>>,
     data: ManuallyDrop<Vec<u8>>,
     total_size: usize,
-    decoded: Arc<(Mutex<usize>, Condvar)>,
+    decoded: Arc<(Mutex<Progress>, Condvar)>,
 }
 
 unsafe impl Send for SyncVecWr {}
@@ -40,27 +47,33 @@ struct SyncVecRd {
     _arc: Arc<Vec<u8>>,
     buffer: *const u8,
     total_size: usize,
-    decoded: Arc<(Mutex<usize>, Condvar)>,
+    decoded: Arc<(Mutex<Progress>, Condvar)>,
 }
 
 unsafe impl Send for SyncVecRd {}
 unsafe impl Sync for SyncVecRd {}
 
 impl SyncVecRd {
+    /// Wait until `end` bytes are decoded. Fails if the decoder stopped before.
     #[inline]
-    pub fn wait_while<F>(&self, function: F) -> usize
-    where
-        F: Fn(&mut usize) -> bool,
-    {
+    pub fn wait_for(&self, end: usize) -> std::io::Result<usize> {
         let (lock, cvar) = &*self.decoded;
-        let decoded = cvar.wait_while(lock.lock().unwrap(), function).unwrap();
-        *decoded
+        let progress = cvar
+            .wait_while(lock.lock().unwrap(), |p| p.decoded < end && !p.failed)
+            .unwrap();
+        if progress.decoded < end {
+            return Err(std::io::Error::new(
+                std::io::ErrorKind::InvalidData,
+                "Cannot decompress data",
+            ));
+        }
+        Ok(progress.decoded)
     }
 
     #[inline]
     pub fn current_size(&self) -> usize {
         let (lock, _cvar) = &*self.decoded;
-        *lock.lock().unwrap()
+        lock.lock().unwrap().decoded
     }
 
     #[inline]
@@ -77,7 +90,7 @@ impl SyncVecRd {
 
 fn create_sync_vec(size: usize) -> (SyncVecWr, SyncVecRd) {
     let buffer = Arc::new(Vec::with_capacity(size));
-    let decoded = Arc::new((Mutex::new(0), Condvar::new()));
+    let decoded = Arc::new((Mutex::new(Progress::default()), Condvar::new()));
     let buffer_ptr = buffer.as_ptr();
     let rd = SyncVecRd {
         _arc: Arc::clone(&buffer),
@@ -113,14 +126,30 @@ fn decode_to_end<T: Read + Send>(
         let size = std::cmp::min(total_size - uncompressed, chunk_size);
         //  println!("decompress {size}");
 
-        uncompressed += decoder
+        let read = decoder
             .by_ref()
             .take(size as u64)
-            .read_to_end(&mut buffer.data)?;
+            .read_to_end(&mut buffer.data);
         let (lock, cvar) = &*buffer.decoded;
-        let mut decoded = lock.lock().unwrap();
-        *decoded = uncompressed;
-        cvar.notify_all();
+        let mut progress = lock.lock().unwrap();
+        match read {
+            // The compressed stream ends before the expected size.
+            Ok(0) => {
+                progress.failed = true;
+                cvar.notify_all();
+                return Err(std::io::ErrorKind::UnexpectedEof.into());
+            }
+            Ok(read) => {
+                uncompressed += read;
+                progress.decoded = uncompressed;
+                cvar.notify_all();
+            }
+            Err(e) => {
+                progress.failed = true;
+                cvar.notify_all();
+                return Err(e);
+            }
+        }
     }
     //println!("Decompress done");
     Ok(())
@@ -139,14 +168,15 @@ impl SeekableDecoder {
                     .unwrap()
             })
             .spawn(move || {
-                decode_to_end(decoder, write_hand, 4 * 1024).unwrap();
+                // On error, the failure is recorded for the readers waiting on the data.
+                let _ = decode_to_end(decoder, write_hand, 4 * 1024);
             });
         Self { buffer: read_hand }
     }
 
     #[inline]
-    pub fn decode_to(&self, end: usize) {
-        self.buffer.wait_while(|d: &mut usize| *d < end);
+    pub fn decode_to(&self, end: usize) -> std::io::Result<()> {
+        self.buffer.wait_for(end).map(|_| ())
     }
 
     #[inline]
@@ -164,7 +194,7 @@ impl Source for SeekableDecoder {
             offset.force_into_usize() + buf.len(),
             self.buffer.total_size(),
         );
-        self.decode_to(end);
+        self.decode_to(end)?;
         let mut slice = &self.decoded_slice()[offset.force_into_usize()..];
         Read::read(&mut slice, buf)
     }
@@ -177,7 +207,7 @@ impl Source for SeekableDecoder {
                 "Out of slice",
             ));
         }
-        self.decode_to(end);
+        self.decode_to(end)?;
         let slice = self.decoded_slice();
         assert!(end <= slice.len());
         buf.copy_from_slice(&self.decoded_slice()[o..end]);
@@ -195,7 +225,7 @@ impl Source for SeekableDecoder {
                 self.size()
             )));
         }
-        self.decode_to(region.end().force_into_usize());
+        self.decode_to(region.end().force_into_usize())?;
         Ok(Cow::Borrowed(
             &self.decoded_slice()
                 [region.begin().force_into_usize()..region.end().force_into_usize()],
